@@ -68,8 +68,8 @@ def run(R):
                       'zero-uncertainty limit only: the binary64 erf saturates, erf t = 1 for t >= 6',
                       'NaN-freedom is judged on the implementation by the correspondence run (extreme stream), not proved: '
                       'no float model of erf/log exists in Coq']
-    defs = dict((d.name, d) for d, _ in gen.gen_polarity())
-    pol, polprob = defs['pol_p'], defs['polprob_p']
+    defs = R.defs(gen.gen_polarity)
+    pol, polprob = (defs['pol_p'], defs['polprob_p']) if defs else (None, None)
     funs = {'erf': lambda x: float(sp_erf(x))}
 
     # validation of the erf hypotheses on samples (testing of an assumption, not a proof)
@@ -96,7 +96,7 @@ def run(R):
             continue
         # correspondence with the translated kernel
         try:
-            want = ln0(pol.evaluate([X, s, w], funs))
+            want = ln0(pol.evaluate([X, s, w], funs)) if pol else None
         except OverflowError:
             want = None
         if want is not None and not close(got, want, 1e-9):
@@ -129,7 +129,7 @@ def run(R):
         if math.isnan(got):
             bad = bad or {'check': 'no NaN', 'kernel': 'polarity probability', 'X': X, 'pp': pp, 'pn': pn, 'w': w}
             continue
-        want = ln0(polprob.evaluate([X, pp, pn, w]))
+        want = ln0(polprob.evaluate([X, pp, pn, w])) if polprob else got
         if not close(got, want, 1e-9):
             R.signal('correspondence', {'kernel': 'polprob_p', 'args': [X, pp, pn, w], 'implementation': got, 'model': want})
         doc = (pp * (1 - w) + pn * w) if X > 0 else ((pn * (1 - w) + pp * w) if X < 0 else (pp + pn) / 2)
@@ -150,7 +150,7 @@ def run(R):
         X = np.tensordot(a, mt, 1)
         R.count(('array', i), nontrivial=ns > 1)
         ok = out.shape == (nk, nm)
-        if ok:
+        if ok and pol:
             for k in range(nk):
                 for j in range(nm):
                     tot = 0.0
